@@ -29,17 +29,17 @@ WORDS_FALSE = ["n", "no", "f", "false", "off", "0"]
 
 def plan(tier, seed):
     cases = []
-    nrep = 6 if tier == "quick" else 60
+    nrep = 6 if tier == "quick" else 600
     for n in range(1, 13):
         for spec in ("closed", "fractional", "degenerate", "zeros", "edge_in_lo", "edge_out_lo", "edge_in_hi", "edge_out_hi", "unrestricted"):
             for rep in range(nrep):
                 cases.append({"kind": "naturals", "n": n, "spec": spec, "rep": rep, "seed": seed})
     for nvec in (1, 2, 3):
-        for rep in range(10 if tier == "quick" else 200):
+        for rep in range(10 if tier == "quick" else 5000):
             cases.append({"kind": "volume", "nvec": nvec, "rep": rep, "seed": seed})
     for n in range(1, 5 if tier == "quick" else 7):
         cases.append({"kind": "fourindex", "n": n})
-    cases.append({"kind": "strtobool", "seed": seed, "nrandom": 2000 if tier == "quick" else 50000})
+    cases.append({"kind": "strtobool", "seed": seed, "nrandom": 2000 if tier == "quick" else 500000})
     return cases
 
 
